@@ -566,7 +566,7 @@ def c15(res: Result):
                        "k-th solver call failing (k<=3) yields a history replayed in the library; (b) random histories under small resource limits "
                        "followed by a full BFS; (c) fault enumeration: for each solver call k of a call, a run in which that call raises, followed by "
                        "the same call without fault (resume). After every event TLC checks the diagram is a valid partial diagram with fresh caches, "
-                       "the return value is the one the model produces, True means the contract is complete and a size-limited False leaves a stub. "
+                       "True is returned only when the contract of the call is complete (TrueMeansClosed), a size-limited False leaves a stub (RetFalse); the exact return value predicted by the model is a mechanism diagnostic. "
                        "Non-trivial: distinct histories containing a call that raised or returned False.")
 
     def nt(tr):
